@@ -1197,6 +1197,10 @@ class Deme:
             f"ancestors: {self.ancestors}, {other.ancestors} (other), "
             f"proportions: {self.proportions}, {other.proportions} (other)."
         )
+        assert len(self.epochs) == len(other.epochs), (
+            f"Different numbers of epochs: "
+            f"{len(self.epochs)} != {len(other.epochs)} (other)."
+        )
         for i, (e1, e2) in enumerate(zip(self.epochs, other.epochs)):
             try:
                 e1.assert_close(e2, rel_tol=rel_tol, abs_tol=abs_tol)
